@@ -417,6 +417,12 @@ pub(super) fn translate_literal(l: Literal, ctx: &Context) -> Result<sql_ast::Ex
             ctx,
         ),
         Literal::ValueAndUnit(vau) => {
+            if !ctx.dialect.supports_interval_literals() {
+                return Err(Error::new_simple(format!(
+                    "interval literals such as `{}{}` are not supported by the target dialect",
+                    vau.n, vau.unit
+                )));
+            }
             let sql_parser_datetime = match vau.unit.as_str() {
                 "years" => DateTimeField::Year,
                 "months" => DateTimeField::Month,
